@@ -115,7 +115,7 @@ func checkEnvelope(c envCase, r *h.Rec) error {
 	var got *sm2.PrivateKey
 	_, err, pan := call(func() ([]byte, error) {
 		var e error
-		got, e = sm2.ParseEnvelopedPrivateKey(opener, append([]byte{}, cand...))
+		got, e = sm2.ParseEnvelopedPrivateKey(opener, own(cand))
 		return nil, e
 	})
 	if pan != "" {
